@@ -258,7 +258,7 @@ func (vc *funcVC) run() (err error) {
 	if vc.ct != nil {
 		for _, cl := range vc.ct.clausesFor(vc.layer) {
 			if cl.Kind == "callsite" && !vc.matchedSites[cl] {
-				vc.addObl(&obligation{Name: fmt.Sprintf("callsite/%s/unmatched", cl.Label), Kind: "ensures", Label: cl.Label, Goal: "true",
+				vc.addObl(&obligation{Name: fmt.Sprintf("callsite/%s/unmatched", cl.Label), Kind: "ensures", Label: cl.Label, Goal: "true", Status: "refuted", Output: "the contract names a call site that the function does not have",
 					Pos: fmt.Sprintf("%s:%d", relPath(cl.File), cl.Line), Clause: fmt.Sprintf("no call %s#%d in this function", cl.Target, cl.Loop), Props: propsOfLabel(cl.Label, vc.props)})
 			}
 		}
